@@ -225,14 +225,18 @@ func (f *Func) Invoke(ctx context.Context, arg interface{}) (interface{}, error)
 		bctx.mu.Unlock()
 		verifAt("invoke.unpublished", bg, index)
 
-		// Check for the context being canceled.
-		if ctx.Err() == nil {
-			bg.result, bg.err = safeInvoke(ctx, f.Many, bg.args)
-		} else {
-			bg.err = ctx.Err()
-		}
-		// Make the result available.
-		close(bg.doneCh)
+		func() {
+			// Make the result available, also when Many ends the goroutine
+			// (runtime.Goexit, as t.Fatal does): the others must not wait for ever.
+			defer close(bg.doneCh)
+			bg.err = errors.New("batch function did not return")
+			// Check for the context being canceled.
+			if ctx.Err() == nil {
+				bg.result, bg.err = safeInvoke(ctx, f.Many, bg.args)
+			} else {
+				bg.err = ctx.Err()
+			}
+		}()
 		verifAt("invoke.ran", bg, index)
 
 	} else {
